@@ -4,10 +4,13 @@ the outcome of every request does not depend on the order of registration.
 
   * sortedness of the model's sort, `candLess` a strict weak order  — `Restful.Lemmas.OrderSort`
   * ranking keys (`C03_curly_key`, `C03_root_*`, `Curly.detectWebService_max`) — `Restful.Lemmas.OrderScore`
+  * the score the router computes since fix 19aa57d (root expressions evaluated, `Curly.wsScoreE`)
+    against the arithmetic `Curly.wsScore`, `C03_rootE_*`            — `Restful.Lemmas.CurlyScore`
   * permutation lemmas for the selection stages                    — `Restful.Lemmas.OrderPerm`
 -/
 import Restful.Lemmas.OrderSort
 import Restful.Lemmas.OrderScore
+import Restful.Lemmas.CurlyScore
 import Restful.Lemmas.OrderPerm
 import Restful.Lemmas.RouteSelected
 import Restful.Lemmas.ReadTemplate
@@ -32,28 +35,32 @@ def curlyAfterSvc (routes : List Route) (req : Req) : Outcome :=
 
 theorem routeCurly_fst (cfg : Config) (req : Req) :
     (routeCurly E cfg req).1 =
-      match Curly.detectWebService (tokenize req.path) cfg.services none with
-      | none => .error 404 none
-      | some (svc, _) => curlyAfterSvc E svc.built req := by
+      match Curly.detectWebService E (tokenize req.path) cfg.services none with
+      | none => .panic "curly.score"
+      | some none => .error 404 none
+      | some (some (svc, _)) => curlyAfterSvc E svc.built req := by
   unfold routeCurly curlyAfterSvc
   simp only
-  cases Curly.detectWebService (tokenize req.path) cfg.services none with
+  cases Curly.detectWebService E (tokenize req.path) cfg.services none with
   | none => rfl
-  | some x =>
-    obtain ⟨svc, sc⟩ := x
-    simp only
-    cases Curly.selectRoutes E svc.built (tokenize req.path) with
+  | some d =>
+    cases d with
     | none => rfl
-    | some cands =>
-      cases cands with
-      | nil => rfl
-      | cons x xs =>
-        simp only
-        cases detectRoute (x :: xs) req with
-        | error e => rfl
-        | ok r =>
+    | some x =>
+      obtain ⟨svc, sc⟩ := x
+      simp only
+      cases Curly.selectRoutes E svc.built (tokenize req.path) with
+      | none => rfl
+      | some cands =>
+        cases cands with
+        | nil => rfl
+        | cons x xs =>
           simp only
-          cases Params.extract r req.path <;> rfl
+          cases detectRoute (x :: xs) req with
+          | error e => rfl
+          | ok r =>
+            simp only
+            cases Params.extract r req.path <;> rfl
 
 theorem detectRoute_ok_head {l : List Route} {req : Req} {r : Route} (h : detectRoute l req = .ok r) :
     ∃ rest, stage4 l req = r :: rest := by
@@ -137,11 +144,9 @@ theorem routeCurly_selected_max {cfg : Config} {req : Req} {s r : Nat} {ps : Par
   rw [routeCurly_fst] at h
   split at h
   · simp at h
+  · simp at h
   · rename_i svc sc hsvc
-    have hsvcmem : svc ∈ cfg.services := by
-      rcases Curly.detectWebService_mem (tokenize req.path) cfg.services none svc sc hsvc with h' | h'
-      · exact h'
-      · simp at h'
+    have hsvcmem : svc ∈ cfg.services := Curly.detectWebService_mem_none E hsvc
     obtain ⟨rt, hrt, h1, h2, _, p, st, hm, hmax⟩ := curlyAfterSvc_selected_max E h
     exact ⟨svc, hsvcmem, rt, hrt, by rw [← Service.built_svc svc hrt]; exact h1, h2, p, st, hm, hmax⟩
 
@@ -300,62 +305,122 @@ theorem built_perm_of_rel {s s' : Service}
   rw [hb]
   exact h5.map _
 
-/-- under `scoresSeparate` the detected WebService is the same (up to the order of its routes)
-    for every order of registration -/
+/-- no two services whose roots both CLAIM the request (faithful score, root expressions
+    evaluated) score equally; weaker than `Spec.scoresSeparate`, which speaks about the arithmetic -/
+def Curly.ScoresSeparateE (cfg : Config) (req : Req) : Prop :=
+  cfg.services.Pairwise (fun a b => ∀ sa sb,
+    Curly.wsScoreE E (tokenize req.path) (tokenize a.rootPath) = .yes sa →
+    Curly.wsScoreE E (tokenize req.path) (tokenize b.rootPath) = .yes sb → sa ≠ sb)
+
+theorem Curly.scoresSeparateE_of {cfg : Config} {req : Req} (hs : Spec.scoresSeparate cfg req) :
+    Curly.ScoresSeparateE E cfg req := by
+  refine List.Pairwise.imp ?_ hs
+  intro a b hab sa sb ha hb
+  exact hab sa sb (Curly.wsScore_of_wsScoreE E ha) (Curly.wsScore_of_wsScoreE E hb)
+
+/-- under `ScoresSeparateE` the detected WebService is the same (up to the order of its routes)
+    for every order of registration; scoring panics for one order iff it does for the other -/
 theorem detectWebService_perm {cfg cfg' : Config} (hperm : Spec.CfgPerm cfg cfg') (req : Req)
-    (hs : Spec.scoresSeparate cfg req) :
-    match Curly.detectWebService (tokenize req.path) cfg.services none,
-          Curly.detectWebService (tokenize req.path) cfg'.services none with
+    (hs : Curly.ScoresSeparateE E cfg req) :
+    match Curly.detectWebService E (tokenize req.path) cfg.services none,
+          Curly.detectWebService E (tokenize req.path) cfg'.services none with
     | none, none => True
-    | some (s, _), some (s', _) => s ∈ cfg.services ∧ s.built.Perm s'.built
+    | some none, some none => True
+    | some (some (s, _)), some (some (s', _)) => s ∈ cfg.services ∧ s.built.Perm s'.built
     | _, _ => False := by
   obtain ⟨_, svcs, hsp, hf⟩ := hperm
-  have hmem (s : Service) (sc : Nat) (svcs : List Service)
-      (h : Curly.detectWebService (tokenize req.path) svcs none = some (s, sc)) : s ∈ svcs := by
-    rcases Curly.detectWebService_mem _ svcs none s sc h with h' | h'
-    · exact h'
-    · simp at h'
-  cases h1 : Curly.detectWebService (tokenize req.path) cfg.services none with
+  -- a panic does not depend on the order
+  have hpanic : Curly.detectWebService E (tokenize req.path) cfg.services none = none ↔
+      Curly.detectWebService E (tokenize req.path) cfg'.services none = none := by
+    rw [Curly.detectWebService_panic, Curly.detectWebService_panic]
+    constructor
+    · rintro ⟨s, hs, hp⟩
+      obtain ⟨s', hs', hrel⟩ := Spec.Forall2.left hf s (hsp.symm.subset hs)
+      exact ⟨s', hs', by rw [Curly.svcScoreE, ← (built_perm_of_rel hrel).1]; exact hp⟩
+    · rintro ⟨s', hs', hp⟩
+      obtain ⟨s, hs, hrel⟩ := Spec.Forall2.right hf s' hs'
+      exact ⟨s, hsp.subset hs, by rw [Curly.svcScoreE, (built_perm_of_rel hrel).1]; exact hp⟩
+  cases h1 : Curly.detectWebService E (tokenize req.path) cfg.services none with
   | none =>
-    cases h2 : Curly.detectWebService (tokenize req.path) cfg'.services none with
-    | none => trivial
-    | some x =>
-      obtain ⟨s', sc'⟩ := x
-      exfalso
-      have hmax' := Curly.detectWebService_max _ _ _ _ h2
-      obtain ⟨s0, hs0, hrel⟩ := Spec.Forall2.right hf s' (hmem _ _ _ h2)
-      have h0 := ((Curly.detectWebService_none _ _ _).mp h1).2 s0 (hsp.subset hs0)
-      rw [Curly.svcScore, (built_perm_of_rel hrel).1, hmax'.1] at h0
-      simp at h0
-  | some x =>
-    obtain ⟨s, sc⟩ := x
-    have hmax := Curly.detectWebService_max _ _ _ _ h1
-    have hsm := hmem _ _ _ h1
-    obtain ⟨s1', hs1', hrel1⟩ := Spec.Forall2.left hf s (hsp.symm.subset hsm)
-    have hsc1 : Curly.svcScore (tokenize req.path) s1' = some sc := by
-      rw [Curly.svcScore, ← (built_perm_of_rel hrel1).1]; exact hmax.1
-    cases h2 : Curly.detectWebService (tokenize req.path) cfg'.services none with
+    rw [hpanic.mp h1]
+    trivial
+  | some d1 =>
+    cases h2 : Curly.detectWebService E (tokenize req.path) cfg'.services none with
     | none =>
-      have h0 := ((Curly.detectWebService_none _ _ _).mp h2).2 s1' hs1'
-      rw [hsc1] at h0
-      simp at h0
+      rw [hpanic.mpr h2] at h1
+      cases h1
+    | some d2 =>
+      cases d1 with
+      | none =>
+        cases d2 with
+        | none => trivial
+        | some x =>
+          obtain ⟨s', sc'⟩ := x
+          exfalso
+          have hmax' := Curly.detectWebService_max E _ _ _ _ h2
+          obtain ⟨s0, hs0, hrel⟩ := Spec.Forall2.right hf s' (Curly.detectWebService_mem_none E h2)
+          have h0 := ((Curly.detectWebService_none E _ _ _).mp h1).2 s0 (hsp.subset hs0)
+          rw [Curly.svcScoreE, (built_perm_of_rel hrel).1, hmax'.1] at h0
+          cases h0
+      | some x =>
+        obtain ⟨s, sc⟩ := x
+        have hmax := Curly.detectWebService_max E _ _ _ _ h1
+        have hsm := Curly.detectWebService_mem_none E h1
+        obtain ⟨s1', hs1', hrel1⟩ := Spec.Forall2.left hf s (hsp.symm.subset hsm)
+        have hsc1 : Curly.svcScoreE E (tokenize req.path) s1' = .yes sc := by
+          rw [Curly.svcScoreE, ← (built_perm_of_rel hrel1).1]; exact hmax.1
+        cases d2 with
+        | none =>
+          have h0 := ((Curly.detectWebService_none E _ _ _).mp h2).2 s1' hs1'
+          rw [hsc1] at h0
+          cases h0
+        | some x' =>
+          obtain ⟨s', sc'⟩ := x'
+          have hmax' := Curly.detectWebService_max E _ _ _ _ h2
+          obtain ⟨s0, hs0, hrel⟩ := Spec.Forall2.right hf s' (Curly.detectWebService_mem_none E h2)
+          have hs0m : s0 ∈ cfg.services := hsp.subset hs0
+          have hsc0 : Curly.wsScoreE E (tokenize req.path) (tokenize s0.rootPath) = .yes sc' := by
+            rw [(built_perm_of_rel hrel).1]; exact hmax'.1
+          have le1 : sc' ≤ sc := hmax.2 s0 hs0m sc' hsc0
+          have le2 : sc ≤ sc' := hmax'.2 s1' hs1' sc hsc1
+          have hsc : sc' = sc := by omega
+          subst hsc
+          have hss0 : s = s0 := by
+            apply pairwise_eq_of_not hs hsm hs0m
+            · intro hn; exact hn _ _ hmax.1 hsc0 rfl
+            · intro hn; exact hn _ _ hsc0 hmax.1 rfl
+          subst hss0
+          exact ⟨hsm, (built_perm_of_rel hrel).2⟩
+
+/-- **C03 (CurlyRouter), order independence**, under the weaker separation hypothesis on the
+    faithful scores -/
+theorem C03_curly_order_E (E : ReEnv) (cfg cfg' : Config) (hperm : Spec.CfgPerm cfg cfg')
+    (hd : Spec.distinctMethodPath cfg) (req : Req) (hs : Curly.ScoresSeparateE E cfg req) :
+    Spec.sameOutcome (routeCurly E cfg req).1 (routeCurly E cfg' req).1 := by
+  have hdet := detectWebService_perm E hperm req hs
+  rw [routeCurly_fst, routeCurly_fst]
+  cases h1 : Curly.detectWebService E (tokenize req.path) cfg.services none with
+  | none =>
+    cases h2 : Curly.detectWebService E (tokenize req.path) cfg'.services none with
+    | none => simp [Spec.sameOutcome]
+    | some x' => cases x' <;> simp [h1, h2] at hdet
+  | some x =>
+    cases h2 : Curly.detectWebService E (tokenize req.path) cfg'.services none with
+    | none => cases x <;> simp [h1, h2] at hdet
     | some x' =>
-      obtain ⟨s', sc'⟩ := x'
-      have hmax' := Curly.detectWebService_max _ _ _ _ h2
-      obtain ⟨s0, hs0, hrel⟩ := Spec.Forall2.right hf s' (hmem _ _ _ h2)
-      have hs0m : s0 ∈ cfg.services := hsp.subset hs0
-      have hsc0 : Curly.wsScore (tokenize req.path) (tokenize s0.rootPath) = some sc' := by
-        rw [(built_perm_of_rel hrel).1]; exact hmax'.1
-      have le1 : sc' ≤ sc := hmax.2 s0 hs0m sc' hsc0
-      have le2 : sc ≤ sc' := hmax'.2 s1' hs1' sc hsc1
-      have hsc : sc' = sc := by omega
-      subst hsc
-      have hss0 : s = s0 := by
-        apply pairwise_eq_of_not hs hsm hs0m
-        · intro hn; exact hn _ _ hmax.1 hsc0 rfl
-        · intro hn; exact hn _ _ hsc0 hmax.1 rfl
-      subst hss0
-      exact ⟨hsm, (built_perm_of_rel hrel).2⟩
+      cases x with
+      | none =>
+        cases x' with
+        | none => simp [Spec.sameOutcome]
+        | some y' => simp [h1, h2] at hdet
+      | some y =>
+        cases x' with
+        | none => simp [h1, h2] at hdet
+        | some y' =>
+          obtain ⟨s, sc⟩ := y
+          obtain ⟨s', sc'⟩ := y'
+          simp only [h1, h2] at hdet
+          exact curlyAfterSvc_perm E hdet.2 (hd s hdet.1) req
 
 /-- **C03 (CurlyRouter), order independence**: for a route table whose (method, template) pairs are
     distinct within each WebService, and a request on which no two matching WebService roots score
@@ -363,22 +428,8 @@ theorem detectWebService_perm {cfg cfg' : Config} (hperm : Spec.CfgPerm cfg cfg'
     registered -/
 theorem C03_curly_order (E : ReEnv) (cfg cfg' : Config) (hperm : Spec.CfgPerm cfg cfg')
     (hd : Spec.distinctMethodPath cfg) (req : Req) (hs : Spec.scoresSeparate cfg req) :
-    Spec.sameOutcome (routeCurly E cfg req).1 (routeCurly E cfg' req).1 := by
-  have hdet := detectWebService_perm hperm req hs
-  rw [routeCurly_fst, routeCurly_fst]
-  cases h1 : Curly.detectWebService (tokenize req.path) cfg.services none with
-  | none =>
-    cases h2 : Curly.detectWebService (tokenize req.path) cfg'.services none with
-    | none => simp [Spec.sameOutcome]
-    | some x' => simp [h1, h2] at hdet
-  | some x =>
-    cases h2 : Curly.detectWebService (tokenize req.path) cfg'.services none with
-    | none => simp [h1, h2] at hdet
-    | some x' =>
-      obtain ⟨s, sc⟩ := x
-      obtain ⟨s', sc'⟩ := x'
-      simp only [h1, h2] at hdet
-      exact curlyAfterSvc_perm E hdet.2 (hd s hdet.1) req
+    Spec.sameOutcome (routeCurly E cfg req).1 (routeCurly E cfg' req).1 :=
+  C03_curly_order_E E cfg cfg' hperm hd req (Curly.scoresSeparateE_of E hs)
 
 end Restful
 
